@@ -196,7 +196,14 @@ class Pool(object):
             self.log[h].clear()
 
     def calls(self):
-        return [list(self.log[h]) for h in range(1, NH + 1)]
+        """events received during the step; events about traits outside the model (the root's observed properties
+        and bookkeeping traits, visible to a `*` registration) are dropped unless the handler observes that property"""
+        out = []
+        for h in range(1, NH + 1):
+            own = self.regs.get(h, [""])[0]
+            out.append([ev for ev in self.log[h]
+                        if not (ev[0] == "trait" and ev[2] in ("csnap", "chv", "w", "tokn") and ev[2] != own)])
+        return out
 
     def probe(self):
         out = []
